@@ -12,6 +12,7 @@ import argparse
 import glob
 import json
 import os
+import re
 import shutil
 import subprocess
 import sys
@@ -53,6 +54,7 @@ def main():
     ap.add_argument("--with-tests", action="store_true", help="also run the repository's tests on the copy")
     ap.add_argument("--keep-going", action="store_true", default=True)
     ap.add_argument("--write-results", action="store_true", help="write selftest/RESULTS.md")
+    ap.add_argument("--merge-results", action="store_true", help="update the rows of selftest/RESULTS.md for what was run, keep the others")
     args = ap.parse_args()
     failed = []
     rows = []
@@ -94,6 +96,33 @@ def main():
         finally:
             shutil.rmtree(tmp, ignore_errors=True)
     print("selftest: %d missed" % len(failed))
+    if args.merge_results:
+        path = os.path.join(HERE, "RESULTS.md")
+        lines = open(path).read().splitlines()
+        head = [ln for ln in lines if not ln.startswith("| ") or ln.startswith("| seeded change") or ln.startswith("|---")]
+        old_rows = {}
+        for ln in lines:
+            if ln.startswith("| ") and not ln.startswith("| seeded change"):
+                cells = [c.strip() for c in ln.strip("|").split("|")]
+                if len(cells) >= 5:
+                    old_rows[(cells[0], cells[1])] = cells
+        for name, prop, result, first, tests in rows:
+            prev = old_rows.get((name, prop))
+            old_rows[(name, prop)] = [name, prop, result, first.replace("|", "/"), tests.replace("|", "/") or (prev[4] if prev else "")]
+        # drop rows of changes that were re-filed under other properties or removed
+        present = {(n, p) for n, ps, _ in collect(None) for p in ps}
+        old_rows = {k: v for k, v in old_rows.items() if k in present}
+        missed = sum(1 for v in old_rows.values() if v[2] == "MISSED")
+        with open(path, "w") as fp:
+            for ln in head:
+                if ln.startswith("|---"):
+                    fp.write(ln + "\n")
+                    for k in sorted(old_rows):
+                        fp.write("| %s |\n" % " | ".join(old_rows[k]))
+                elif re.match(r"^\d+ seeded changes x checks", ln):
+                    fp.write("%d seeded changes x checks, %d missed.\n" % (len(old_rows), missed))
+                else:
+                    fp.write(ln + "\n")
     if args.write_results:
         with open(os.path.join(HERE, "RESULTS.md"), "w") as fp:
             fp.write("# Seeded breaks against the checks (tier %s, seed %s)\n\n" % (args.tier, args.seed))
